@@ -1700,7 +1700,33 @@ mod mmr {
         }
     }
 
+    /// Symbolic names are a function of the BYTES: a mutation that rebuilt an entry of the master proof and
+    /// tagged it `Raw` although its bytes are a node digest of the master tree (the master's leaves are merged
+    /// nodes, not raw strings) is re-tagged with that node's name, so that the model sees the same value as
+    /// the code does.
+    fn renamed_master(f: &Forest, p: &MP) -> MP {
+        let fix = |b: &BV| -> BV {
+            match (&b.1, f.master.name.get(&b.0)) {
+                (M::Raw(_), Some(m)) => (b.0.clone(), m.clone()),
+                _ => b.clone(),
+            }
+        };
+        let mut q = p.clone();
+        q.master.root = fix(&q.master.root);
+        q.master.items = q.master.items.iter().map(fix).collect();
+        q.master.leaves = q.master.leaves.iter().map(|(pos, b)| (*pos, fix(b))).collect();
+        q
+    }
     fn push_map(sink: &mut Sink, id: u64, f: &Forest, kind: &str, p: &MP, queries: &[BV], expect: Expect) {
+        let p = &renamed_master(f, p);
+        let queries: Vec<BV> = queries
+            .iter()
+            .map(|b| match (&b.1, f.master.name.get(&b.0)) {
+                (M::Raw(_), Some(m)) => (b.0.clone(), m.clone()),
+                _ => b.clone(),
+            })
+            .collect();
+        let queries = &queries[..];
         let (v, c) = run_map(p, queries);
         let acc = v == 0;
         let mut why = None;
@@ -1750,7 +1776,7 @@ mod mmr {
         });
     }
 
-    const N_MAPMUT: u64 = 9;
+    const N_MAPMUT: u64 = 11;
     fn mutate_map(f: &Forest, base: &MP, rng: &mut Rng, which: u64) -> (String, MP, Expect) {
         let mut p = base.clone();
         let ns = p.subs.len();
@@ -1830,6 +1856,24 @@ mod mmr {
                 let c = p.subs[s].clone();
                 p.subs.push(c);
                 ("sub-proof-duplicated".into(), p, Expect::Accept)
+            }
+            9 | 10 if ns > 0 => {
+                // the SAME key twice: a self-made tree with a foreign leaf next to the genuine sub-proof of that
+                // key, before it (9) or after it (10).  Every listed sub-proof must be verified and linked to the
+                // master proof - a verifier that first collects the sub-proofs into a map keeps only one of them,
+                // while `contains` still walks the whole list
+                let k = rng.below(1 << 20);
+                let t2 = T::new(99, vec![fake_bytes(k), fake_bytes(k + 1)]);
+                let mut q = honest(&t2, &[0]).unwrap();
+                let fix = |b: &BV| -> BV {
+                    if b.0 == fake_bytes(k) || b.0 == fake_bytes(k + 1) { (b.0.clone(), M::Raw(b.0.clone())) } else { (b.0.clone(), M::Mrg(Box::new(M::Raw(fake_bytes(k))), Box::new(M::Raw(fake_bytes(k + 1))))) }
+                };
+                q.root = fix(&q.root);
+                q.items = q.items.iter().map(fix).collect();
+                let key = p.subs[s].0.clone();
+                let at = if which == 9 { s } else { s + 1 };
+                p.subs.insert(at, (key, MP { master: q, subs: vec![] }));
+                (if which == 9 { "same-key-foreign-sub-proof-first" } else { "same-key-foreign-sub-proof-last" }.into(), p, Expect::Reject)
             }
             _ => {
                 // an extra foreign sub-proof under a fresh key, not linked into the master proof
@@ -1980,17 +2024,19 @@ mod mmr {
                     }
                 }
                 if base.is_none() {
-                    for _ in 0..(if thorough { 6 } else { 4 }) {
+                    for _ in 0..(if thorough { N_MAPMUT + 4 } else { N_MAPMUT }) {
                         let _ = rng.fork();
                         let _ = rng.below(N_MAPMUT);
                         let _ = sink.wants();
                     }
                     continue;
                 }
-                let nm = if thorough { 6 } else { 4 };
-                for _ in 0..nm {
+                // every mutation kind once per honest proof (systematic), plus a few random repeats in the thorough tier
+                let nm = if thorough { N_MAPMUT + 4 } else { N_MAPMUT };
+                for mi in 0..nm {
                     let mut r = rng.fork();
-                    let w = rng.below(N_MAPMUT);
+                    let drawn = rng.below(N_MAPMUT);
+                    let w = if mi < N_MAPMUT { mi } else { drawn };
                     let Some(id) = sink.wants() else { continue };
                     let b = base.as_ref().expect("honest map proof");
                     let (kind, p, e) = mutate_map(&f, b, &mut r, w);
